@@ -23,6 +23,12 @@ CHECKS = {
     "C07": dict(ref="6/C07", tech="TLC on Yomm2MC (histories over pools; FreshEquivalence, TypeOK) generating every history up to the bound and random simulations; histories replayed on the real library, every post-update observation validated by TLC against the oracle on the current catalogs",
                 text="Every history of <=5 operations (thorough: 6) over a pool of class records, methods and definitions, TLC-simulated histories of 15 operations and guided random histories of up to 60 operations on random registries are replayed under eager custom, std, projected and deferred type ids, with and without hash; after every update (and after a second, change-free update) all outcome tables and next slots must equal the oracle evaluated on the catalogs as they are then.",
                 note="registration objects' destructors are replaced by direct catalog removal; the dlopen/dlclose scenario is not built"),
+    "C09": dict(ref="6/C09", tech="TLC on VptrMC.tla (handle validity across updates, direct vs indirect) + random handle scripts replayed on the real virtual_ptr / virtual_shared_ptr code under 13 policies, every call through handles validated by TLC against the oracle for the pointees",
+                text="Handles are built by every construction route (exact static type, base reference, final, shared_ptr lvalue / rvalue / most-derived, make_virtual_shared), copied, moved, converted, cast, read back through get / * / ->, and used as arguments of methods taking virtual_ptr, const virtual_ptr& and virtual_shared_ptr, before and after updates that move slots; indirect handles are used after the update, direct ones are not (the specification's validity rule).",
+                note="static types of handles are nodes of a 4-class C++ chain with run-time static ids; std-RTTI and projected policies are not bound for handle scripts"),
+    "C15": dict(ref="6/C15", tech="TLC trace validation against UpdateUnknown / CallUnknown / MakeVptrUnknown / MakeVptrNotFinal of Yomm2.tla under the checked policies, with hook-H2 read events",
+                text="Registries with one class left out, at every place it can occur: listed base, method parameter, definition parameter (update must report that class); dynamic class of an argument at each virtual position by reference, pointer, shared_ptr and virtual_ptr; pointee of each virtual_ptr construction route; final with another dynamic type (method table error). The report must carry that class, no definition may run, and no v-table may be read for that argument before the report.",
+                note="'no table read first' is decided on the v-table reads of hook H2; reads for earlier registered arguments of the same call are legal"),
     "C10": dict(ref="6/C10", tech="TLC trace validation of the same scripts under each RTTI flavour (std, custom, projected many-to-one, deferred) against the one oracle",
                 text="The C01 universes (sampled in quick), the Yomm2MC histories and random registries are executed under 13 policies covering the four RTTI facet shapes, with and without hash, with three consecutive updates; projected policies register and use three ids per class. Every trace must satisfy the same specification.",
                 note="std ids are type_info addresses of a pool of 24 real classes"),
